@@ -1,5 +1,8 @@
 import Autd3.Model.Wire
+import Autd3.Model.Fw
 import Autd3.Lemmas.WireSend
+import Autd3.Lemmas.TupleSend
+import Autd3.Lemmas.P02ClearObs
 /-!
 # C03 — a tuple datagram equals its parts sent in order; frames are well formed
 Theorems about `Wire.packOp` / `Wire.packOp2` (mirror of `OperationHandler::{pack_op, pack_op2}`).
@@ -219,6 +222,188 @@ theorem frames_bounded_622 (A B : Dg) (t tA tB : Tx) (hS : t.payload.size = 622)
     framesOf A B 249 t ≤ framesOf A .null 249 tA + framesOf .null B 249 tB :=
   frames_bounded A B 249 t tA tB (by rw [hS]) (by rw [hS, hsA]) (by rw [hS, hsB]) hA hB
     (by rw [hS]; exact valid_fits_622 A hA) (by rw [hS]; exact valid_fits_622 B hB)
+
+
+/-! ## (4) tuple = sequence: the firmware side (`Fw.ecatRecv`) and the send loops (`Wire` ∘ `Fw`)
+
+Definitions used below (all in `Lemmas/Tuple*.lean`, `Lemmas/RtSend.lean`):
+`Rt.pre s id` = `read_fpga_state` of `s` with `lastMsgId := id` (what the handlers see);
+`Rt.fin s id` = `s` with `CTL_FLAG := flagsInternal`, `ack := id` (end of an accepted frame);
+`Tuple.Eqv s s'`: all fields of the device state equal except `ack`, `lastMsgId`, `rxData`;
+`Tuple.Eqv0 s s'`: additionally the register `CTL_FLAG` (`ctl[0]`) may differ;
+`Tuple.RelRes` / `Tuple.RelFinal`: equality of handler / frame results up to these relations;
+`Rt.Sends A s t t' s'` (send loop of one datagram: `pack_op`, deliver, stop on error ack, until done) and
+`Tuple.Sends2 A B s t t' s'` (the same loop with `pack_op2` for the pair). -/
+
+open Autd3.Fw Autd3.Tuple in
+/-- **slot2_is_sequential** — exactly what `ecat_recv` does with a frame, for EVERY state and EVERY frame:
+a repeated message id is ignored; an id with bit 7 is refused; otherwise slot 1 is handled on the state with
+the id latched; if slot 1 is rejected (error bit in its ack) the frame ends there — slot 2 is NOT executed and
+the ack is slot 1's error; if the header announces no second slot the frame is finished; a second-slot offset
+beyond the frame is a panic (index out of range) — raised only after slot 1 has been executed; otherwise slot 2
+is handled on exactly the state slot 1 left (with `ack` = slot 1's code) and its rejection ends the frame with
+its error, else the frame is finished.  I.e. the device handles `a` and then `b`, in this order, and nothing
+happens in between. -/
+theorem slot2_is_sequential (s : State) (frame : Array Nat) :
+    ecatRecv s frame =
+      if s.lastMsgId = u8at frame 0 then .ok s
+      else if u8at frame 0 &&& 0x80 ≠ 0 then .ok { Rt.pre s (u8at frame 0) with ack := Cpu.ERR_INVALID_MSG_ID }
+      else
+        match handlePayload (Rt.pre s (u8at frame 0)) (frame.extract 4 frame.size) with
+        | .error e => .error e
+        | .ok (s1, a1) =>
+          if a1 &&& Cpu.ERR_BIT ≠ 0 then .ok { s1 with ack := a1 }
+          else if u16at frame 2 = 0 then .ok (Rt.fin s1 (u8at frame 0))
+          else if 4 + u16at frame 2 > frame.size then .error (.index "ecat_recv: slot 2 offset")
+          else
+            match handlePayload { s1 with ack := a1 } (frame.extract (4 + u16at frame 2) frame.size) with
+            | .error e => .error e
+            | .ok (s2, a2) =>
+              if a2 &&& Cpu.ERR_BIT ≠ 0 then .ok { s2 with ack := a2 } else .ok (Rt.fin s2 (u8at frame 0)) := by
+  rw [ecatRecv_body]; rfl
+
+open Autd3.Fw Autd3.Tuple in
+/-- **one frame with two slots against two single-slot frames** (any state, any payloads).  `F` carries both
+operations (slot-2 offset `k ≠ 0` inside the frame), `F1` is `F` with the slot-2 offset cleared, `F2` carries the
+slot-2 part of `F`'s payload under a different id.  Slot 1 returns `(s1, a1)`.
+* If slot 1 is rejected, `F` and `F1` leave the device in the same state: slot 2 is skipped.
+* If slot 1 is accepted and the slot-2 handler run does not depend on `ack`, `lastMsgId`, `rxData`, `CTL_FLAG`
+  (hypothesis `hins`; `cfg_handlers_insensitive` discharges it for the configuration handlers), then `F` and
+  `F1; F2` end the same way (`RelFinal`): both acknowledged and the states equal except `ack`, `lastMsgId`, `rxData`;
+  or both rejected by slot 2 with the same code (states equal except those and `CTL_FLAG`); or the same panic. -/
+theorem slot2_equals_two_frames (s : State) (F F1 F2 : Array Nat) (id id2 k : Nat) (s1 : State) (a1 : Nat)
+    (hF : u8at F 0 = id ∧ u16at F 2 = k) (hF1 : u8at F1 0 = id ∧ u16at F1 2 = 0)
+    (hF2 : u8at F2 0 = id2 ∧ u16at F2 2 = 0)
+    (hP1 : F1.extract 4 F1.size = F.extract 4 F.size) (hP2 : F2.extract 4 F2.size = F.extract (4 + k) F.size)
+    (hfresh : s.lastMsgId ≠ id) (hid : id &&& 0x80 = 0) (hid2 : id2 &&& 0x80 = 0)
+    (hk : k ≠ 0) (hfit : 4 + k ≤ F.size)
+    (h1 : handlePayload (Rt.pre s id) (F.extract 4 F.size) = .ok (s1, a1)) (hl : s1.lastMsgId ≠ id2)
+    (hins : ∀ s', Eqv0 { s1 with ack := a1 } s' →
+      RelRes (handlePayload { s1 with ack := a1 } (F.extract (4 + k) F.size)) (handlePayload s' (F.extract (4 + k) F.size))) :
+    (a1 &&& Cpu.ERR_BIT ≠ 0 → ecatRecv s F = .ok { s1 with ack := a1 } ∧ ecatRecv s F1 = .ok { s1 with ack := a1 }) ∧
+    (a1 &&& Cpu.ERR_BIT = 0 → ecatRecv s F1 = .ok (Rt.fin s1 id) ∧
+      RelFinal id id2 (ecatRecv s F) (ecatRecv (Rt.fin s1 id) F2)) :=
+  two_slots_two_frames s F F1 F2 id id2 k s1 a1 hF hF1 hF2 hP1 hP2 hfresh hid hid2 hk hfit h1 hl hins
+
+open Autd3.Fw Autd3.Tuple in
+/-- the eight configuration handlers (Synchronize, Silencer — both modes —, ForceFan, ReadsFPGAState,
+pulse-width table, GPIO outputs/debug, GPIO-in emulation, CPU GPIO out; selected by the tag byte, `cfgTable`)
+do not depend on `ack`, `lastMsgId`, `rxData`, `CTL_FLAG`, on every well-formed state and for every payload -/
+theorem cfg_handlers_insensitive (K : Nat) (s s' : State) (p : Array Nat) (hW : P02.WF s)
+    (hK : (u8at p 0, K) ∈ cfgTable) (e : Eqv0 s s') : RelRes (handlePayload s p) (handlePayload s' p) :=
+  cfg_insensitive K s s' p hW hK e
+
+open Autd3.Fw Autd3.Tuple Autd3.Rt in
+/-- **tuple_equiv_single_frame** (partial in the datagram kinds only).  For every pair `A`, `B` of the nine
+single-frame configuration datagrams `IsCfg` = Synchronize, ForceFan, ReadsFPGAState, CpuGPIOOut, EmulateGPIOIn,
+GPIOOutputs (debug), pulse-width table, Silencer fixed-completion-steps (strict or not), Silencer fixed-update-rate;
+every well-formed device state `s`; every transmit buffer `t` with a 622-byte payload (stale content and message
+id arbitrary) whose next id the device has not just processed: the tuple `(A, B)` sent through
+`pack_op2`/`ecat_recv` is accepted if and only if `A` and then `B` sent as two datagrams are accepted, and the
+final device states are equal in every field except `ack`, `lastMsgId`, `rxData`.  No "different resources"
+hypothesis: the device executes slot 1 before slot 2, so order is preserved (even for `A`, `B` of the same kind,
+and for Silencer against anything).  When `A` and `B` do not fit one frame (two pulse-width tables) the tuple
+sends exactly the frames of the sequence.
+
+Not covered (why this is `_partial`): Gain, the four SwapSegment operations, Clear, FirmwareVersion (no closed form
+of their handlers on all well-formed states in `Lemmas/P02*`; their slot-2 insensitivity is not proved), and
+PhaseCorrection, for which the statement is FALSE for the raw state — see `phaseCorr_padding_counterexample`.
+`rxData` cannot be added to the relation — see `tuple_rxData_counterexample`. -/
+theorem tuple_equiv_single_frame_partial (A B : Dg) (hA : IsCfg A = true) (hB : IsCfg B = true) (s : State) (t : Tx)
+    (hW : P02.WF s) (ht : TxOK t) (hf : Fresh s t) :
+    (∀ t2 s2, Sends2 A B s t t2 s2 → ∃ tA sA tB sB, Sends A s t tA sA ∧ Sends B sA tA tB sB ∧ Eqv s2 sB) ∧
+    (∀ tA sA tB sB, Sends A s t tA sA → Sends B sA tA tB sB → ∃ t2 s2, Sends2 A B s t t2 s2 ∧ Eqv s2 sB) :=
+  tuple_equiv_cfg A B hA hB s t hW ht hf
+
+/-- the bytes of a configuration operation do not depend on where in the frame it is packed nor on the stale
+content of the buffer (every byte of the operation is written) — what makes slot 2 of the tuple frame carry the
+same operation as the second frame of the sequence -/
+theorem cfg_bytes_translation_invariant (X : Dg) (hX : Tuple.IsCfg X = true) (n : Nat) (b c : Array Nat) (off off' : Nat)
+    (hb : off + Tuple.cfgLen X ≤ b.size) (hc : off' + Tuple.cfgLen X ≤ c.size) :
+    ∃ b' c', (Op.ofDg X).pack n b off = .ok ({ dg := X, sent := 0, done := true }, b', Tuple.cfgLen X) ∧
+      (Op.ofDg X).pack n c off' = .ok ({ dg := X, sent := 0, done := true }, c', Tuple.cfgLen X) ∧
+      ∀ i, i < Tuple.cfgLen X → Fw.u8at b' (off + i) = Fw.u8at c' (off' + i) :=
+  ⟨_, _, Tuple.cfg_pack X hX n b off hb, Tuple.cfg_pack X hX n c off' hc, Tuple.cfg_ti X hX b c off off' hb hc⟩
+
+/-- **general tuples, structural part only** (`tuple_equiv` for multi-frame members is NOT proved).  Every frame
+of the tuple's send loop is one of: (i) first operation done — `pack_op` of the second, the very frame of the
+sequence; (ii) second done — `pack_op` of the first; (iii) both pending and the second does not fit behind the
+first — `pack_op` of the first alone, again the very frame of the sequence (same id, same bytes); the only frames
+that differ from the sequence's are those where both are pending and the second fits (`slot2_wellformed`).
+Missing for the full statement: for Modulation × {Gain, GainSTM, FociSTM} (and the other multi-frame pairs) the
+proof that each `write_mod` continuation frame commutes with each STM frame (frame conditions of `writeMod`,
+`writeGain`, `writeGainStm`, `writeFociStm` on all well-formed states), locality of these handlers in the payload
+and their independence of `ack`/`lastMsgId`/`rxData`/`CTL_FLAG`.  No counterexample to commutation for different
+resources was found: every cross-resource validation (`validate_silencer_settings`) reads only fields that are
+written by the BEGIN frame of the other member, which precedes it in both orders. -/
+theorem tuple_frames_partial (o1 o2 : Op) (n : Nat) (t : Tx) :
+    (o1.done = true → o2.done = false →
+      packOp2 o1 o2 n t = match packOp o2 n t with
+        | .error e => .error (e, { t with msgId := ((t.msgId + 1) % 256) &&& Drv.MSG_ID_MAX, slot2 := 0 })
+        | .ok (o2', t', _) => .ok (o1, o2', t')) ∧
+    (o1.done = false → o2.done = true →
+      packOp2 o1 o2 n t = match packOp o1 n t with
+        | .error e => .error (e, { t with msgId := ((t.msgId + 1) % 256) &&& Drv.MSG_ID_MAX, slot2 := 0 })
+        | .ok (o1', t', _) => .ok (o1', o2, t')) ∧
+    (o1.done = false → o2.done = false → ∀ o1' t' sz1, packOp o1 n t = .ok (o1', t', sz1) →
+      ¬ t'.payload.size - sz1 ≥ o2.required n → packOp2 o1 o2 n t = .ok (o1', o2, t')) :=
+  ⟨Tuple.packOp2_first_done o1 o2 n t, Tuple.packOp2_second_done o1 o2 n t,
+    fun h1 h2 o1' t' sz1 hp hfit => Tuple.packOp2_nofit o1 o2 n t h1 h2 o1' t' sz1 hp hfit⟩
+
+/-! ### what the equivalence cannot include -/
+
+set_option maxRecDepth 100000 in
+open Autd3.Fw Autd3.Tuple in
+/-- **rxData is not preserved** (why `Eqv` excludes it).  Power-on-like state; frame `[id 1 | slot2 = 2 |
+ReadsFPGAState(true) | ForceFan(true)]` against the two frames `[id 1 | ReadsFPGAState(true)]`,
+`[id 2 | ForceFan(true)]`: both are acknowledged, but after the tuple the rx byte is `0x00` (no FPGA state, the
+"enabled" bit 7 clear: `read_fpga_state` ran before slot 1 switched reading on and is not run again), after the
+sequence it is `0x80` (the second frame's `read_fpga_state` sees reading enabled).  The difference disappears with
+the next frame or clock update; a controller that reads `fpga_state()` right after the tuple sees `None`. -/
+theorem tuple_rxData_counterexample :
+    rxOf (ecatRecv {} #[1, 0, 2, 0, 0x61, 1, 0x60, 1]) = some (1, 0) ∧
+    rxOf (ecatRecv {} #[1, 0, 0, 0, 0x61, 1] >>= fun m => ecatRecv m #[2, 0, 0, 0, 0x60, 1]) = some (2, 128) := by
+  decide +kernel
+
+/-- `PhaseCorrection::pack` for 249 transducers reports 252 bytes but writes 251: the last byte keeps whatever the
+transmit buffer held (every buffer, every offset) -/
+theorem phaseCorr_pack_leaves_padding (bytes b : Array Nat) (off : Nat) :
+    ∃ o' b', (Op.ofDg (.phaseCorr bytes)).pack 249 b off = .ok (o', b', 252) ∧
+      Fw.u8at b' (off + 251) = Fw.u8at b (off + 251) := by
+  refine ⟨_, _, rfl, ?_⟩
+  simp only [Rt.u8at_putBytes, tagValue, Rt.u8at_put8, Rt.size_put8]
+  rw [if_neg (by simp only [DrvLayout.PhaseCorr_size]; omega), if_neg (by omega), if_neg (by omega)]
+
+set_option maxRecDepth 100000 in
+open Autd3.Fw Autd3.Tuple in
+/-- **PhaseCorrection is excluded from `tuple_equiv_single_frame_partial` for a reason**: the firmware copies 125
+words = 250 bytes, i.e. it reads the padding byte `pack` never writes (`phaseCorr_pack_leaves_padding`).  Two frames
+`[id 1 | slot2 = 2 | ForceFan(true) | PhaseCorrection(249 × 7) | padding]` that differ only in the stale padding
+byte (0xAB / 0x00 — in the tuple it is the buffer's old byte 253, in the sequence the old byte 251) are both
+acknowledged and leave different words in the phase-correction memory at index 124 (high byte = transducer 249,
+which does not exist: not observable through `phase_correction()`, but the raw states differ). -/
+theorem phaseCorr_padding_counterexample :
+    pcOf (ecatRecv {} (#[1, 0, 2, 0, 0x60, 1, 0x80, 0] ++ Array.replicate 249 7 ++ #[0xAB])) 124 = some (1, 0xAB07) ∧
+    pcOf (ecatRecv {} (#[1, 0, 2, 0, 0x60, 1, 0x80, 0] ++ Array.replicate 249 7 ++ #[0x00])) 124 = some (1, 0x0007) := by
+  decide +kernel
+
+/-! ### non-vacuity of (4) -/
+
+/-- a well-formed device state (a device right after `CPUEmulator::new`), a 622-byte transmit buffer and a fresh
+id: the hypotheses of `tuple_equiv_single_frame_partial` hold together, for a non-trivial pair -/
+example : ∃ (s : Fw.State) (t : Tx), P02.WF s ∧ Rt.TxOK t ∧ Rt.Fresh s t ∧
+    Tuple.IsCfg (.silencerSteps 10 40 true) = true ∧ Tuple.IsCfg (.pwe (Array.replicate 256 0x100)) = true :=
+  ⟨{ P02.clearResult (P02.preClear 249 0) with lastMsgId := 0xFF }, {},
+    { P02.wf_clearResult _ (P02.wf_preClear 249 0 (by decide)) with }, by simp [Rt.TxOK, Drv.EC_OUTPUT_FRAME_SIZE, DrvLayout.Header_size],
+    by show (0xFF : Nat) ≠ _; decide, rfl, rfl⟩
+
+/-- the frame shape hypotheses of `slot2_equals_two_frames` hold for the frames of `tuple_rxData_counterexample` -/
+example : let F : Array Nat := #[1, 0, 2, 0, 0x61, 1, 0x60, 1]; let F1 : Array Nat := #[1, 0, 0, 0, 0x61, 1, 0x60, 1]
+    let F2 : Array Nat := #[2, 0, 0, 0, 0x60, 1]
+    (Fw.u8at F 0 = 1 ∧ Fw.u16at F 2 = 2) ∧ (Fw.u8at F1 0 = 1 ∧ Fw.u16at F1 2 = 0) ∧ (Fw.u8at F2 0 = 2 ∧ Fw.u16at F2 2 = 0) ∧
+    F1.extract 4 F1.size = F.extract 4 F.size ∧ F2.extract 4 F2.size = F.extract (4 + 2) F.size ∧ 4 + 2 ≤ F.size ∧
+    (Fw.u8at (F.extract (4 + 2) F.size) 0, 2) ∈ Tuple.cfgTable := by
+  decide
 
 /-! ### non-vacuity -/
 
